@@ -42,8 +42,11 @@ def run_path(a5, geo, c, r, ctx, cls, choose, jumps=False):
             # several levels in one call (up to 4^5 or 5 x 4^4 descendants), then one of them
             j = ctx.rnd.randint(2, min(5 if cr >= 0 else 3, depth - cr))
             kids = a5.cell_to_children(cur, cr + j)
+            prev = cur
             cur = kids[ctx.rnd.randrange(len(kids))]
             cr += j
+            if a5.cell_to_parent(cur, cr - j) != prev:
+                ctx.fail('listed_descendant_has_another_ancestor', {'ancestor': prev, 'descendant': cur, 'r': cr - j, 'rd': cr, 'cls': cls})
         else:
             kids = a5.cell_to_children(cur)
             cur = kids[choose(len(kids))]
@@ -159,6 +162,18 @@ def nesting(a5, geo, ctx):
         ctx.maxi('segment_area_sum_rel_err', rel, case)
         if rel > 1e-6:
             ctx.fail('segment_areas_do_not_sum', case, rel=rel)
+        # descendants of the face several levels down, obtained in ONE call: all must map back to the face, a sample must be near it
+        for lv in (3, 5):
+            desc = a5.cell_to_children(f, lv)
+            bad = [x for x in desc if a5.cell_to_parent(x, 0) != f]
+            if bad or len(set(desc)) != 5 * 4 ** (lv - 1):
+                ctx.fail('listed_descendant_has_another_ancestor', dict(case, level=lv), n_foreign=len(bad), n=len(desc), example=bad[:2])
+            for x in [desc[ctx.rnd.randrange(len(desc))] for _ in range(40)] + desc[:3] + desc[-3:]:
+                d = geo.ang(centre_vec(a5, geo, x), fc) / geo.width(0)
+                ctx.case((f, x))
+                ctx.maxi('descendant_drift_w', d, {'ancestor': f, 'descendant': x, 'r': 0, 'rd': lv})
+                if d > 1.5:
+                    ctx.fail('descendant_drift', {'ancestor': f, 'descendant': x, 'r': 0, 'rd': lv, 'cls': 'face_multi_level'}, drift_w=d)
         ctx.count('faces_nested')
 
 
